@@ -2295,6 +2295,14 @@ pub fn content_shapes() -> Vec<Vec<u8>> {
         }
     }
     v.extend(foreign_blobs());
+    // structured data behind a length of its own: a DER object / a name list / an extension list as the only entry of a list
+    for inner in [vec![0x30u8, 0x03, 0x0a, 0x01, 0x03], vec![0x30, 0x82, 0x00, 0x03, 0x0a, 0x01, 0x00], vec![0x30, 0x00], vec![0x04, 0x02, 0x00, 0x00], vec![0x00, 0x04, 0x30, 0x02, 0x31, 0x00], vec![0x00, 0x17, 0x00, 0x00]] {
+        let n = inner.len();
+        v.push([&[n as u8][..], &inner[..]].concat());
+        v.push([&[0, n as u8][..], &inner[..]].concat());
+        v.push([&[0, 0, n as u8][..], &inner[..]].concat());
+        v.push([&[0, 0, n as u8][..], &inner[..], &[0, 0][..]].concat());
+    }
     // DER objects: every universal tag with a one-byte value in and out of small enumerations
     for tag in [0x01u8, 0x02, 0x03, 0x04, 0x05, 0x06, 0x0a, 0x0c, 0x13, 0x17, 0x18, 0x30, 0x31, 0x80, 0xa0, 0xa3] {
         for val in [0u8, 1, 6, 7, 8, 0x7f, 0x80, 0xff] {
